@@ -29,7 +29,10 @@ type Builder struct {
 	FeatureAt map[string]int64
 }
 
-func NewBuilder(gen GenSpec) *Builder { return &Builder{Gen: gen, H: 1, entropy: 1000} }
+func NewBuilder(gen GenSpec) *Builder {
+	InitCodec()
+	return &Builder{Gen: gen, H: 1, entropy: 1000}
+}
 
 func (b *Builder) Proto() bool { return b.H >= CodecUpgradeHeight }
 
